@@ -32,6 +32,58 @@ type nilScanner struct {
 	x        *Extractor
 	fn       string
 	findings []nilFinding
+	alias    map[string]string // variable -> the item expression it was obtained from (type assertion, On* callback parameter)
+}
+
+// guardLevel of an expression key, following aliases: 2 = IsNil-guarded, 1 = compared with nil only
+func (s *nilScanner) level(g guardSet, key string) int {
+	best := g[key]
+	seen := map[string]bool{}
+	for k := key; !seen[k]; {
+		seen[k] = true
+		a, ok := s.alias[k]
+		if !ok {
+			break
+		}
+		if g[a] > best {
+			best = g[a]
+		}
+		k = a
+	}
+	return best
+}
+
+// valueReceiverPtr: x has type *S for a struct S of the package and method m of S has a value receiver
+func (s *nilScanner) valueReceiverPtr(sel *ast.SelectorExpr) bool {
+	tv, ok := s.x.info.Types[sel.X]
+	if !ok {
+		return false
+	}
+	p, ok := tv.Type.(*types.Pointer)
+	if !ok {
+		return false
+	}
+	named, ok := p.Elem().(*types.Named)
+	if !ok || named.Obj().Pkg() != s.x.pkg {
+		return false
+	}
+	if _, ok := named.Underlying().(*types.Struct); !ok {
+		return false
+	}
+	si := s.x.info.Selections[sel]
+	if si == nil || si.Kind() != types.MethodVal {
+		return false
+	}
+	fn, ok := si.Obj().(*types.Func)
+	if !ok {
+		return false
+	}
+	recv := fn.Type().(*types.Signature).Recv()
+	if recv == nil {
+		return false
+	}
+	_, isPtr := recv.Type().(*types.Pointer)
+	return !isPtr
 }
 
 func (x *Extractor) isItemIface(t types.Type) bool {
@@ -162,16 +214,34 @@ func (s *nilScanner) expr(e ast.Expr, g guardSet) {
 		s.expr(v.Y, g)
 	case *ast.CallExpr:
 		if sel, ok := v.Fun.(*ast.SelectorExpr); ok {
-			if tv, ok := s.x.info.Types[sel.X]; ok && s.x.isItemIface(tv.Type) {
-				if selInfo := s.x.info.Selections[sel]; selInfo != nil && selInfo.Kind() == types.MethodVal {
-					key := s.x.src(sel.X)
-					if g[key] < 2 {
-						s.findings = append(s.findings, nilFinding{Func: s.fn, Call: s.x.src(v), Pos: s.x.fset.Position(v.Pos()).String(), Weak: g[key] == 1})
+			key := s.x.src(sel.X)
+			if tv, ok := s.x.info.Types[sel.X]; ok {
+				_, isIface := tv.Type.Underlying().(*types.Interface)
+				_, aliased := s.alias[key]
+				if s.x.isItemIface(tv.Type) || (isIface && aliased) {
+					if selInfo := s.x.info.Selections[sel]; selInfo != nil && selInfo.Kind() == types.MethodVal {
+						if lv := s.level(g, key); lv < 2 {
+							s.findings = append(s.findings, nilFinding{Func: s.fn, Call: s.x.src(v), Pos: s.x.fset.Position(v.Pos()).String(), Weak: lv == 1})
+						}
+					}
+				} else if aliased && s.valueReceiverPtr(sel) {
+					// a pointer obtained from an item (callback parameter, type assertion): nil when the item was a typed nil
+					if s.level(g, key) < 1 {
+						s.findings = append(s.findings, nilFinding{Func: s.fn, Call: s.x.src(v), Pos: s.x.fset.Position(v.Pos()).String()})
 					}
 				}
 			}
 			s.expr(sel.X, g)
+			// On*(k, func(v *T) error { … }): inside the callback v stands for k
+			if id, ok := v.Fun.(*ast.Ident); ok && strings.HasPrefix(id.Name, "On") && len(v.Args) == 2 {
+				_ = id
+			}
 		} else {
+			if id, ok := v.Fun.(*ast.Ident); ok && strings.HasPrefix(id.Name, "On") && len(v.Args) == 2 {
+				if fl, ok := v.Args[1].(*ast.FuncLit); ok && fl.Type.Params != nil && len(fl.Type.Params.List) == 1 && len(fl.Type.Params.List[0].Names) == 1 {
+					s.alias[fl.Type.Params.List[0].Names[0].Name] = s.x.src(v.Args[0])
+				}
+			}
 			s.expr(v.Fun, g)
 		}
 		for _, a := range v.Args {
@@ -211,6 +281,13 @@ func (s *nilScanner) stmt(st ast.Stmt, g guardSet) (after guardSet) {
 	case *ast.ExprStmt:
 		s.expr(v.X, g)
 	case *ast.AssignStmt:
+		if len(v.Rhs) == 1 && len(v.Lhs) >= 1 {
+			if ta, ok := v.Rhs[0].(*ast.TypeAssertExpr); ok && ta.Type != nil {
+				if id, ok := v.Lhs[0].(*ast.Ident); ok && id.Name != "_" {
+					s.alias[id.Name] = s.x.src(ta.X)
+				}
+			}
+		}
 		for _, r := range v.Rhs {
 			s.expr(r, g)
 		}
@@ -319,7 +396,7 @@ func (x *Extractor) genNilCheck() string {
 		if fd.Body == nil {
 			continue
 		}
-		s := &nilScanner{x: x, fn: k}
+		s := &nilScanner{x: x, fn: k, alias: map[string]string{}}
 		s.block(fd.Body.List, guardSet{})
 		all = append(all, s.findings...)
 	}
